@@ -588,13 +588,21 @@ pub fn apply_input_plugins(
         ));
         return Err(in_ops::package_error(&mut query.clone(), error));
     }
+    // an invariant error (a plugin left something that is not a JSON object) does not know the
+    // query it belongs to: its request is a placeholder. answer with the original query instead
+    let with_request = |mut error: serde_json::Value| {
+        if error.get("request") == Some(&serde_json::json!({"error": "unable to display query"})) {
+            error["request"] = query.clone();
+        }
+        error
+    };
     let mut plugin_state = serde_json::Value::Array(vec![query.clone()]);
     for plugin in plugins {
         let p = plugin.clone();
         let op: in_ops::InputArrayOp = Rc::new(|q| p.process(q));
-        in_ops::json_array_op(&mut plugin_state, op)?
+        in_ops::json_array_op(&mut plugin_state, op).map_err(with_request)?
     }
-    let result = in_ops::json_array_flatten(&mut plugin_state)?;
+    let result = in_ops::json_array_flatten(&mut plugin_state).map_err(with_request)?;
     Ok(result)
 }
 
